@@ -116,7 +116,9 @@ def handle (op : String) (args : List String) : Option Ans :=
         | _ => none
     | "boxobj_seal", _ :: rest =>
         match hexArgs rest with
-        | some [rpk, m, esk] => some (outBytes (boxSeal P (zeros (m.length + 48)) m rpk esk), okHex (Spec.NaCl.boxSeal rpk esk m))
+        -- the OBJECT model `DryocBox::seal` (`objSeal`); same answers as the classic `boxSeal` on an exactly sized
+        -- buffer: `C01.objSeal_toBytes_eq_boxSeal`
+        | some [rpk, m, esk] => some (objEnc (objSeal P m rpk esk), okHex (Spec.NaCl.boxSeal rpk esk m))
         | _ => none
     | "boxobj_vecforms", _ :: rest =>
         match hexArgs rest with
